@@ -623,11 +623,12 @@ class EvalMixin:
 
     def ev_IfExp(self, e, st):
         for c, st1 in self.ev(e.test, st):
-            cond = z3.simplify(self.truth(c, st1))
-            if z3.is_true(cond):
+            cond = self.truth(c, st1)
+            cs_ = z3.simplify(cond)
+            if z3.is_true(cs_):
                 yield from self.ev(e.body, st1)
                 continue
-            if z3.is_false(cond):
+            if z3.is_false(cs_):
                 yield from self.ev(e.orelse, st1)
                 continue
             if st1.spec or (not has_impure_call(e.body) and not has_impure_call(e.orelse)):
